@@ -364,6 +364,7 @@ func runC19Twice(c *c19Case, scratch string, stats map[string]int64) (v *core.Dr
 	}); v != nil || h != "" || setupErr != "" {
 		return v, h + setupErr, ""
 	}
+	refused := false
 	for run := 1; run <= 2; run++ {
 		name := fmt.Sprintf("run%d", run)
 		if v, h := stage(name, func(w *core.World) *core.DriverViolation {
@@ -371,6 +372,9 @@ func runC19Twice(c *c19Case, scratch string, stats map[string]int64) (v *core.Dr
 			w.BeginStmt(0, "insert", nil)
 			pmsg, err := callMain(args, c.Text, scratch)
 			w.EndStmt()
+			if w.StatsCopy()["lru_refuse"] > 0 {
+				refused = true
+			}
 			if err != nil {
 				setupErr = err.Error()
 				return nil
@@ -383,6 +387,15 @@ func runC19Twice(c *c19Case, scratch string, stats map[string]int64) (v *core.Dr
 			return v, h + setupErr, ""
 		}
 		stats["tool_runs_through_main"]++
+		if refused {
+			// no tick is delivered while main() runs (the process is gone before
+			// the next one), so a small simulated cache fills with dirty pages and
+			// refuses: records are then reported, not stored - the precondition
+			// exit of every check but C15 (a thorough run on the unchanged tree
+			// reported this as a violation once: 134 records, cache of 24 pages)
+			stats["abandoned_cache_refused"]++
+			return nil, "", strings.Join(hashes, "")
+		}
 	}
 	want := append(append([][]core.Val(nil), ref.rows...), ref.rows...)
 	if v, h := stage("console", func(w *core.World) *core.DriverViolation {
@@ -685,7 +698,7 @@ func genC19(seed uint64, thorough bool) *c19Case {
 	for i := 0; i < ncols; i++ {
 		c.Cols = append(c.Cols, core.Col{Name: fmt.Sprintf("c%d", i), Type: r.Intn(4), Len: 255})
 	}
-	c.Sep = []string{",", ",", ";", "\t", "|"}[r.Intn(5)]
+	c.Sep = []string{",", ",", ";", "\t", "|", ",", ";", "\t", "|", "\u00a7", "\u2192", "\u2502"}[r.Intn(12)] // now and then a separator of more than one byte
 	// mapping: a non-empty subset of the table columns in random order, each fed from a CSV index
 	perm := make([]int, ncols)
 	for i := range perm {
